@@ -136,3 +136,34 @@ def skeleton_rows(ctx, rows):
     return {"activations": sum(x["count"] for x in sk), "distinct_walks": len({",".join(x["seq"]) for x in sk}),
             "complete_walks": sum(x["count"] for x in sk if x["seq"] and x["seq"][-1] == "finish" and "master" in x["seq"]),
             "rejected": len(fails)}
+
+
+def mc_liveness(ctx):
+    """Temporal form of C06's bound: under weak fairness of the manager's actions a planned request is eventually removed
+    (Switchover.tla LiveSpec / C06_PlannedResolved), with failures, and in the thorough tier manager crashes, within budgets.
+    Exhaustive results are reused while the specifications are unchanged."""
+    import hashlib
+    cfg = "MC_Switchover_live_quick.cfg" if ctx.quick else "MC_Switchover_live.cfg"
+    h = hashlib.sha256()
+    for fn in sorted(os.listdir(vlib.SPEC)):
+        if fn.endswith(".tla"):
+            h.update(open(os.path.join(vlib.SPEC, fn), "rb").read())
+    cdir = os.path.join(os.path.dirname(vlib.SPEC), "out", ".mc-cache")
+    os.makedirs(cdir, exist_ok=True)
+    key = hashlib.sha256(h.digest() + open(os.path.join(vlib.SPEC, cfg), "rb").read()).hexdigest()[:24]
+    cpath = os.path.join(cdir, "%s-%s.json" % (cfg, key))
+    if os.path.exists(cpath) and not os.environ.get("VERIF_NO_MC_CACHE"):
+        c = json.load(open(cpath))
+        c["cached"] = True
+    else:
+        r = vlib.tlc(ctx, "MC_Switchover", cfg=cfg, workers=8, timeout=1200 if ctx.quick else 7200)
+        vlib.tlc_must(ctx, r, "MC_Switchover/" + cfg)
+        if r.violations or "Temporal properties were violated" in r.out:
+            raise vlib.Inconclusive("the switchover MODEL violates the liveness property C06_PlannedResolved under %s - a candidate "
+                                    "counterexample only (model or fairness assumption to be reconciled)" % cfg)
+        if "No error has been found" not in r.out:
+            raise vlib.Inconclusive("liveness check under %s did not complete: %s" % (cfg, r.out[-600:]))
+        c = {"cfg": cfg, "distinct": r.distinct, "generated": r.generated, "wall_s": round(r.wall, 1), "property": "C06_PlannedResolved"}
+        json.dump(c, open(cpath, "w"))
+    ctx.log("liveness %s: C06_PlannedResolved holds on %d distinct states%s" % (cfg, c["distinct"], " (cached)" if c.get("cached") else ""))
+    return c
